@@ -494,7 +494,9 @@ fn directed_prelude(ty: &str, rng: &mut Rng) -> Option<(u64, Vec<Vec<u64>>)> {
             // child merges that state
             vec![K_EDIT, ra, 0, 0],                      // A: root a                    (op 0)
             vec![K_EDIT, ra, 1, 2],                      // A: c on top of the heads     (op 1)
+            vec![K_EDIT, ra, 2, 2],                      // A: d on top of c             (op 2)
             vec![K_DELIVER, rc, nodup, 1],               // C gets c first: orphan
+            vec![K_DELIVER, rc, nodup, 1],               // C gets d, whose child is that orphan
             vec![K_DELIVER, rb, nodup, 0],               // B gets a
             vec![K_MERGE, rb, rc],                       // B <- C
             vec![K_MERGE, rc, rb],
